@@ -11,7 +11,7 @@ import z3
 from . import gen, symsem, sym
 from .common import Stats, short_hash
 from .semcheck import call_site
-from problog.errors import ProbLogError
+from problog.errors import ProbLogError, InconsistentEvidenceError
 
 
 def legal_from_groups(groups):
@@ -82,7 +82,7 @@ def replay_diff(text, cfgA, cfgB, values, tol=1e-8, ignore_extra_zero=False):
 
 def diff_check(text, cfgA, cfgB, descA, descB, groups=(), name="", prop="", timeout_ms=20000,
                bool_route=True, real_route=True, st=None, tol=1e-8, ignore_extra_zero=True,
-               max_real_params=14, classify=None):
+               max_real_params=14, classify=None, key_prefix=""):
     """Obligations: A and B agree (errors, instance sets, values for all parameter values and
     all worlds). Returns Stats."""
     st = st if st is not None else Stats()
@@ -101,11 +101,14 @@ def diff_check(text, cfgA, cfgB, descA, descB, groups=(), name="", prop="", time
         if rep:
             key = "%s:%s:%s" % (kind, pkey, detail)
             if kind == "error":
-                # internal (non-ProbLog) exceptions are identified by their call site
+                # accept/reject disagreements are identified by exception type and call site
+                parts = []
                 for cfg in (cfgA, cfgB):
                     k_, r_ = concrete(cfg, text, values)
-                    if k_ == "error" and not isinstance(r_, ProbLogError):
-                        key = "error:%s@%s" % (type(r_).__name__, call_site(r_))
+                    if k_ == "error" and not isinstance(r_, InconsistentEvidenceError):
+                        parts.append("%s@%s" % (type(r_).__name__, call_site(r_)))
+                if parts:
+                    key = "%serror:%s" % (key_prefix, "|".join(parts))
             if classify is not None:
                 key = classify(symsem.substitute_params(text, values), key) or key
             st.violation(key, "%s :: %s" % (what, info),
